@@ -34,7 +34,7 @@ from __future__ import annotations
 
 import ast
 import re
-from typing import Dict, List, Optional, Set, Tuple
+from typing import Any, Dict, List, Optional, Set, Tuple
 
 from sa import e7, sqlx
 from sa.callgraph import callgraph
@@ -413,6 +413,43 @@ def run(rep: Report, tier: str) -> None:
         rep.exemption("R32.3", k, why)
     rep.analysed = {"mapper_branches": len(dl), "error_writers": len(writers), "execute_sites": nsites, "reachable_functions": len(reach2),
                     "ast_node_classes": nvis, "bare_raise_sites": nraise}
+    # ---- R32.9 a null Time_Period scalar result passes through the output formatting untouched, in every output format ----
+    rep.rule("R32.9", "output formatting of a Time_Period SCALAR: a null value is left alone in every format (the handler is never built from None)")
+    from sa.e6 import ClassVal as _CV9, Interp as _I9, Raised as _R9, Unmodelled as _U9
+    from sa import structmodel as _sm9
+    ff9 = P.func("vtlengine.files.output._time_period_representation.format_time_period_external_representation")
+
+    class _NullHandlerUse(Exception):
+        pass
+
+    class _H:
+        def __init__(self, v: Any) -> None:
+            if not isinstance(v, str):
+                raise _NullHandlerUse(repr(v))
+            self.v = v
+
+        def __getattr__(self, name: str) -> Any:
+            return lambda *a, **k: f"<{name}:{self.v}>"
+    for mode9 in ("vtl", "sdmx_gregorian", "sdmx_reporting", "natural"):
+        for val9 in (None, "2020-Q1"):
+            sc9 = _sm9.MNode("Scalar", name="sc_r", data_type=_CV9("vtlengine.DataTypes.TimePeriod"), value=val9)
+            outcome = "ok"
+            try:
+                _I9(P, externals={"isinstance": _sm9._isinstance, "TimePeriodHandler": _H}).call(ff9, {"operand": sc9, "mode": mode9})
+            except _NullHandlerUse as e:
+                outcome = f"builds TimePeriodHandler({e})"
+            except _U9 as e:
+                raise AnalysisError(f"R32.9: format_time_period_external_representation outside the evaluator's language: {e}")
+            except _R9 as e:
+                outcome = f"raises {getattr(e.exc, 'cls', e.exc)}"
+            rep.instance("R32.9", f"scalar/{mode9}/{'null' if val9 is None else 'value'}", nontrivial=True, sample={"format": mode9, "value": val9, "after": sc9.value, "outcome": outcome})
+            if val9 is None and (outcome != "ok" or sc9.value is not None):
+                rep.add(Finding("R32.9", f"R32.9/scalar-null/{mode9}", ff9.module.rel, ff9.node.lineno, ff9.qualname,
+                                f"a null Time_Period scalar result under time_period_output_format={mode9!r}: the formatter {outcome} (value afterwards {sc9.value!r}); TimePeriodHandler(None) raises "
+                                f"a raw TypeError, so `sc_r <- cast(<null>, time_period)` makes run() fail with a Python error instead of returning the null scalar"))
+            if val9 is not None and (outcome != "ok" or not isinstance(sc9.value, str) or sc9.value == val9 and False):
+                rep.add(Finding("R32.9", f"R32.9/scalar-value/{mode9}", ff9.module.rel, ff9.node.lineno, ff9.qualname,
+                                f"a Time_Period scalar {val9!r} under format {mode9!r}: the formatter {outcome}, value afterwards {sc9.value!r}"))
     rep.rule("R32.8", "the error mappers cannot fail themselves: partial operations on the engine's message are guarded")
     mapper_partial_operations(P, rep, "R32.8")
     # ---- R32.7 every dataset a statement reads is scheduled for loading: the dependency analysis does not carry aliases across statements ----
